@@ -166,7 +166,7 @@ class Universe:
             bases.append("Generic[T]")
         lines.append(f"class {name}({', '.join(bases)}):" if bases else f"class {name}:")
         if kind == "pydantic":
-            lines.append("    model_config = pydantic.ConfigDict(arbitrary_types_allowed=True)")
+            lines.append("    model_config = pydantic.ConfigDict(arbitrary_types_allowed=True, strict=True)")
         for f in c["fields"]:
             ann = self._ann(c, f)
             has_default = f.get("default") is not None
